@@ -241,6 +241,10 @@ def run(chk, b, tier):
                 jid += 1
         if ri == 0:
             progress_pairs(chk, sz, gitdir, d)
+            for fa, envx in ((["--json"], {"GIT_CONFIG_COUNT": "1", "GIT_CONFIG_KEY_0": "sizer.jsonVersion", "GIT_CONFIG_VALUE_0": "2"}),
+                             (["-v", "--names=hash"], {"GIT_CONFIG_COUNT": "1", "GIT_CONFIG_KEY_0": "sizer.names", "GIT_CONFIG_VALUE_0": "none"}),
+                             ([], {"GIT_CONFIG_COUNT": "1", "GIT_CONFIG_KEY_0": "sizer.threshold", "GIT_CONFIG_VALUE_0": "0"})):
+                R.fault_probe(chk, "C14", sz, gitdir, fa + ["--no-progress"], rng, b.shimdir(), d, n=4 if tier == "quick" else 25, env=envx)
     jobs, res = R.pmap(pair_job, jobs, chunksize=4, chk=chk, with_items=True)
     fams = {}
     for job, (viol, nruns) in zip(jobs, res):
